@@ -61,6 +61,7 @@ type ccmd struct {
 	ID      string       `json:"id,omitempty"`    // tstep, tfinish
 	Step    *plannedStep `json:"step,omitempty"`  // tstep
 	Abort   bool         `json:"abort,omitempty"` // tfinish
+	Aged    bool         `json:"aged,omitempty"`  // seed: rewrite every item once more (values move to their own blobs)
 }
 
 type creply struct {
@@ -97,6 +98,15 @@ func (n *nodeState) handle(m ccmd) creply {
 		}
 		if err := txn.Commit(txn.Public{DB: db}, prog, time.Minute); err != nil {
 			return creply{Err: err.Error()}
+		}
+		if m.Aged {
+			init := map[string]string{}
+			for _, kv := range m.Init {
+				init[kv.K] = kv.V
+			}
+			if err := txn.Commit(txn.Public{DB: db}, ageProgram(init), time.Minute); err != nil {
+				return creply{Err: "ageing: " + err.Error()}
+			}
 		}
 		return creply{OK: true}
 	case "tbegin":
@@ -372,7 +382,7 @@ func roundClustered(i int, seed int64, extra []string) any {
 		defer c.stop()
 		nodes = append(nodes, c)
 	}
-	if rp := nodes[0].do(ccmd{Cmd: "seed", Slot: res.Slot, Profile: res.Profile, Init: initKV}, 90*time.Second); !rp.OK {
+	if rp := nodes[0].do(ccmd{Cmd: "seed", Slot: res.Slot, Profile: res.Profile, Init: initKV, Aged: i%2 == 1}, 90*time.Second); !rp.OK {
 		res.Harness = "seed: " + rp.Err
 		return res
 	}
@@ -508,7 +518,7 @@ func roundDirected(i int, seed int64, local bool) any {
 		return startCNode(cfg)
 	}
 	res.Slot = []int{2, 2, 4, 4, 8}[rnd.Intn(5)]
-	prof := []sopx.Profile{sopx.InNode, sopx.InNode, sopx.Separate, sopx.SepCached, sopx.SepActive}[rnd.Intn(5)]
+	prof := []sopx.Profile{sopx.InNode, sopx.Separate, sopx.SepCached, sopx.SepActive, sopx.SepActive}[rnd.Intn(5)]
 	res.Profile = string(prof)
 	nReg := 4 + rnd.Intn(5)
 	nSet := 4
@@ -537,7 +547,7 @@ func roundDirected(i int, seed int64, local bool) any {
 		defer c.stop()
 		nodes = append(nodes, c)
 	}
-	if rp := nodes[0].do(ccmd{Cmd: "seed", Slot: res.Slot, Profile: res.Profile, Init: initKV}, 90*time.Second); !rp.OK {
+	if rp := nodes[0].do(ccmd{Cmd: "seed", Slot: res.Slot, Profile: res.Profile, Init: initKV, Aged: i%2 == 1}, 90*time.Second); !rp.OK {
 		res.Harness = "seed: " + rp.Err
 		return res
 	}
@@ -585,8 +595,31 @@ func roundDirected(i int, seed int64, local bool) any {
 		}
 		var as []*actor
 		perm := rnd.Perm(P)
+		// every second episode is one of the two canonical anomaly shapes over two registers that live
+		// far apart (first and last register): write skew (T1 reads A writes B, T2 reads B writes A) or a
+		// fractured read (R reads A and B, W writes A and B); the other episodes are PRNG transactions
+		canon := rnd.Intn(2) == 0
+		regA, regB := regKey(0), regKey(nReg-1)
+		if rnd.Intn(2) == 0 {
+			regA, regB = regB, regA
+		}
+		skew := rnd.Intn(2) == 0
 		for a := 0; a < n; a++ {
 			pl := genTxn(rnd, newID(), nReg, nSet)
+			if canon && a < 2 {
+				pl = plannedTxn{ID: pl.ID, Mode: "W"}
+				switch {
+				case skew && a == 0:
+					pl.Steps = []plannedStep{{"read", regA}, {"rmw", regB}}
+				case skew:
+					pl.Steps = []plannedStep{{"read", regB}, {"rmw", regA}}
+				case a == 0:
+					pl.Mode = "R"
+					pl.Steps = []plannedStep{{"read", regA}, {"read", regB}}
+				default:
+					pl.Steps = []plannedStep{{"rmw", regA}, {"rmw", regB}}
+				}
+			}
 			pl.Delay = 0
 			as = append(as, &actor{p: perm[a], plan: pl})
 			if !record(perm[a], "", nodes[perm[a]].do(ccmd{Cmd: "tbegin", Plan: &pl}, 60*time.Second)) {
